@@ -47,6 +47,11 @@ type C15Listing struct {
 
 var c15Insts = []string{"a", "b", "host-1"}
 
+// A second kind of file, registered the way a product embedding the snapshot package does: names with this
+// extension are well-formed, belong to this database - and are NOT snapshots: the receiver must never deliver one,
+// the cleaner must neither delete one nor count it as the newest snapshot of its instance.
+func init() { snapshot.RegisterExtension("delta.pb.gz", "delta") }
+
 func c15Name(c C15Listing, f C15File, base time.Time) string {
 	inst := c15Insts[f.Inst%len(c15Insts)]
 	ts := base.Add(time.Duration(f.Hour)*time.Hour + time.Duration(f.Ns))
@@ -249,7 +254,7 @@ func genC15Listing(t *rapid.T) C15Listing {
 
 func TestC15Listing(t *testing.T) {
 	vcore.Run(t, vcore.Config{Property: "C15",
-		Rule: "rapid: one bucket with snapshots of this database (1-3 instances, several ages, a third of the files within the same second as another one, differing only in the nanosecond field), of 1-2 other databases whose names extend / are a prefix of / are unrelated to this one (same instance names, older and newer timestamps) and junk names starting with this database's name; the real receiver must deliver exactly the newest snapshot of each instance of THIS database and the real cleaner (three runs) must delete exactly the superseded snapshots of this database; " +
+		Rule: "rapid: one bucket with snapshots of this database (1-3 instances, several ages, a third of the files within the same second as another one, differing only in the nanosecond field), of 1-2 other databases whose names extend / are a prefix of / are unrelated to this one (same instance names, older and newer timestamps) and junk names starting with this database's name (incl. backups `.bak.pb.gz` and files of another registered kind `.delta.pb.gz`, possibly newer than every snapshot of their instance); the real receiver must deliver exactly the newest snapshot of each instance of THIS database and the real cleaner (three runs) must delete exactly the superseded snapshots of this database; " +
 			"non-trivial = another database's name shares a prefix with this one and this database has snapshots"},
 		genC15Listing, checkC15Listing)
 }
